@@ -456,6 +456,17 @@ def run_case(case):
             preamble()
         for i in range(case["steps"]):
             step(i)
+            if rng.random() < 0.08:
+                # a listing abandoned part-way (or two in flight at once) must not change what later listings report
+                t_ = rng.randrange(len(lives))
+                qs = [lives[t_].resources, lives[t_].windows, lives[t_].window_patterns]
+                if not is_poisoned(t_):
+                    qs.append(lives[t_].all_resources)
+                for q in qs:
+                    next(iter(q()), None)
+                    for _x, _y in zip(q(), q()):
+                        break
+                mon.count("partially_consumed_listings")
         for t in range(len(lives)):
             probe(t)
             compare_reports(t, "end of history")
